@@ -67,6 +67,39 @@ def walk(n: Int, l: List[Int]): Int
   r + before + after - y
 end
 
+def plain_depth(n: Int): Int
+  return 0 if n == 0
+  x := n
+  1 + plain_depth(n - 1) + x - x
+end
+
+def mutate_after(d: Int, k: Int): Int
+  var c = k
+  inc := || -> do
+    c = c + 1
+    c
+  end
+  a := inc.()
+  plain_depth(d)
+  c = c * 10
+  b := inc.()
+  plain_depth(d + d)
+  c = c + 7
+  a + b + inc.() + c
+end
+
+def nested_mutate(n: Int, d: Int): Int
+  return mutate_after(d, n) if n == 0
+  var t = n
+  bump := || -> do
+    t = t + 2
+    t
+  end
+  r := nested_mutate(n - 1, d)
+  t = t + r
+  bump.() + t
+end
+
 async def aw(n: Int): Int
   return n if n < 2
   a := aw(n - 1)
@@ -95,7 +128,15 @@ func genKnobProgram(r *Rand) (string, []string) {
 	var frags []string
 	n := r.Range(2, 5)
 	for i := 0; i < n; i++ {
-		switch k := r.Intn(8); k {
+		switch k := r.Intn(10); k {
+		case 8:
+			d := Pick(r, []int{3, 40, 200, 450})
+			fmt.Fprintf(&b, "println \"mut=${mutate_after(%d, %d)}\"\n", d, r.Intn(9))
+			frags = append(frags, fmt.Sprintf("mutate%d", d))
+		case 9:
+			d := Pick(r, []int{5, 60, 300})
+			fmt.Fprintf(&b, "println \"nest=${nested_mutate(%d, %d)}\"\n", r.Range(1, 12), d)
+			frags = append(frags, fmt.Sprintf("nestedmutate%d", d))
 		case 0:
 			d := Pick(r, []int{5, 30, 120, 400, 900})
 			fmt.Fprintf(&b, "println \"deep=${deep(%d, 0)}\"\n", d)
